@@ -119,6 +119,39 @@ def run_case(case, stats):
                 )
             if set(rel.columns) != set().union(*[r.keys() for r in exp]) and exp:
                 raise Violation("columns-differ", f"{set(rel.columns)} vs row keys; program {fmt(node, leaves)}")
+        # equal relations are not interchangeable: the same program over twin leaves (same names, columns and engines,
+        # other rows) builds trees that compare equal to the ones above; chaining the two must concatenate their rows
+        if int(codec.digest(case)[:2], 16) % 2 == 0:
+            from vf.core.prog import twin_leaves
+
+            leaves2 = twin_leaves(leaves)
+            tw = env.twin(leaves2)
+            try:
+                from vf.core.prog import OutOfDomain
+
+                try:
+                    exp2 = ev_list(prog, leaves2, check_fd=True)
+                except OutOfDomain:
+                    exp2 = None
+                rels2 = build_all(prog, tw) if exp2 is not None else None
+                if exp2 is None:
+                    raise BuildError(None, None)
+                try:
+                    both = rels[id(prog)].chain(rels2[id(prog)])
+                    got = env.run_iter(both)
+                except Exception as e:
+                    raise Violation("execute-raised", f"chain with the twin-leaf copy: {type(e).__name__}: {e}; program {fmt(prog, leaves)}", exc=e)
+                if got != expected + exp2:
+                    raise Violation(
+                        "rows-differ",
+                        f"program {fmt(prog, leaves)} chained with the same program over twin leaves (same names, other rows); tree {both}; "
+                        f"expected {show_rows(expected + exp2)} got {show_rows(got)}",
+                    )
+                stats.c["twin-chains"] += 1
+            except BuildError:
+                pass
+            finally:
+                tw.close_tables()
         classify(prog, leaves, rels, stats)
         if n_ops(prog) >= 2 and any(len(l[2]) >= 2 for l in leaves if l[4] == "data"):
             ks = kinds(prog)
